@@ -34,6 +34,8 @@ EXPR_SEQ_NR = [H("expr", "expr_d1")] + [H("expr", "expr_d2", args=[r, 0, 0], wei
 EXPR_SEQ_Q = [H("expr", "expr_d1")] + [H("expr", "expr_d2", args=[r, 0, 0, 0], weight=(3 if r >= 18 else 1)) for r in EXPR_D2_ROOTS]
 EXPR_SEQ_FAULTS = [H("expr", "expr_d2", args=[r, 1, 0], weight=6, thorough_only=True) for r in EXPR_D2_ROOTS if r >= 18]
 
+# connect-time faults (the n-th connect of one leaf throws) over the same trees, model-free exactly-once / no-leak oracle
+EXPR_CFAULT = [H("expr", "expr_cfault", args=[r], weight=(4 if r >= 18 else 1)) for r in [0] + EXPR_D2_ROOTS]
 RACES = [H("races", "race_compose", 2, 3, args=[k, oa, ob, ns]) for k in (0, 1, 2, 3) for (oa, ob, ns) in ((0, 0, 0), (1, 0, 0), (2, 1, 0), (0, 2, 0), (1, 2, 1))]
 RACE_LVSS = [H("races", "race_lvss", 2, 3, args=[4, 0, 0], **{"max-failures": 60}), H("races", "race_lvss", 2, 3, args=[4, 1, 0], **{"max-failures": 60})]
 
@@ -83,7 +85,7 @@ CHECKS = {
     "C10": {"harnesses": CORO},
     "C11": {
         "harnesses": [
-            H("traits", "traits_corpus"),
+            H("traits", "traits_corpus"), H("traits", "ctx_throwing_value"),
             H("expr", "expr_ctx", args=[6]), H("expr", "expr_ctx", args=[7]),
             H("events", "evt_v1_ctx", 3, 4), H("events", "evt_v2_ctx", 3, 4), H("mutexh", "mtx_v2_loop", 3, 4),
             H("coro", "coro_script", args=[0, 1, 0]), H("coro", "coro_script", args=[0, 1, 1]), H("coro", "coro_script", args=[1, 1, 0]),
@@ -104,6 +106,8 @@ CHECKS = {
         "harnesses": [H("timers", "tim_single", 2, 3, args=list(a)) for a in (
             (2, 3, 0, 0), (3, 2, 0, 0), (4, 2, 0, 0), (2, 4, 0, 0), (0, 1, 0, 0), (1, 0, 0, 0), (4, 4, 0, 0), (4, 2, 1, 0), (2, 2, 1, 0), (0, 4, 1, 0),
             (2, 3, 0, 1), (4, 2, 0, 1), (4, 4, 0, 1), (4, 2, 1, 1), (0, 1, 0, 1))] + [
+            H("timers", "tim_three", 1, 2, args=[0, 0], **{"cache-bits": 24}), H("timers", "tim_three", 1, 2, args=[0, 2], **{"cache-bits": 24}),
+            H("timers", "tim_three", 1, 2, args=[1, 0], **{"cache-bits": 24}), H("timers", "tim_three", 1, 2, args=[0, 1], thorough_only=True, **{"cache-bits": 24}),
             H("timers", "tim_unsafe", 0, 0),
             H("timers", "tim_clockmath"),
             H("sched", "sch_timed_plain", 2, 3),
@@ -119,9 +123,9 @@ CHECKS = {
     },
     "C01": {"harnesses": EXPR_SEQ_NR + [H("expr", "expr_d2", args=[r, 0, 1], weight=6, thorough_only=True) for r in EXPR_D2_ROOTS if r >= 18] + RACES + [
         H("cancel", "canc_generic", 2, 3), H("cancel", "canc_evt2", 2, 3), H("scopes", "scope_close_race", 2, 3, args=[0]),
-        H("sched", "sch_loop", 2, 3), H("futures", "fut_v2", 2, 3, args=[0, 0])],
+        H("sched", "sch_loop", 2, 3), H("futures", "fut_v2", 2, 3, args=[0, 0]), H("timers", "tim_three", 1, 2, args=[0, 0], **{"cache-bits": 24})],
         "deadline": {"quick": 480, "thorough": 2400}},
-    "C02": {"harnesses": [H("payload", "payload_adaptors")] + EXPR_SEQ_NR + EXPR_SEQ_FAULTS + RACES + RACE_LVSS + [
+    "C02": {"harnesses": [H("payload", "payload_adaptors")] + EXPR_CFAULT + EXPR_SEQ_NR + EXPR_SEQ_FAULTS + RACES + RACE_LVSS + [
         H("futures", "fut_v2", 3, 4, args=[0, 0]), H("futures", "fut_v2", 3, 4, args=[1, 0]), H("futures", "fut_faults"),
         H("cancel", "canc_detach", 3, 4, args=[0]), H("cancel", "canc_evt2", 2, 3), H("cancel", "canc_basic", 2, 3),
         H("scopes", "scope_v0", 3, 4, args=[0])],
@@ -131,7 +135,7 @@ CHECKS = {
         H("cancel", "canc_generic", 3, 4, args=[0, 0, 0, 1]), H("cancel", "canc_detach", 3, 4, args=[0]),
         H("futures", "fut_v2", 3, 4, args=[1, 0]), H("scopes", "scope_v1", 3, 4, args=[0, 2])],
         "deadline": {"quick": 480, "thorough": 2400}},
-    "C05": {"harnesses": [H("payload", "payload_adaptors")] + EXPR_SEQ + EXPR_SEQ_FAULTS, "deadline": {"quick": 420, "thorough": 2400}},
+    "C05": {"harnesses": [H("payload", "payload_adaptors")] + EXPR_SEQ + EXPR_SEQ_FAULTS + EXPR_CFAULT, "deadline": {"quick": 420, "thorough": 2400}},
     "C12": {"harnesses": EXPR_SEQ_Q + [H("expr", "expr_d2", args=[r, 0, 1], weight=6, thorough_only=True) for r in EXPR_D2_ROOTS if r >= 18], "deadline": {"quick": 420, "thorough": 2400}},
     "C06": {
         "harnesses": [
